@@ -367,6 +367,9 @@ impl<P: Payload> PeerCrypto<P> {
             // COLD PATH
             debug!("Received init message");
             buffer.take_prefix();
+            if buffer.is_empty() {
+                return Err(Error::Parse("Init message too short"));
+            }
             self.handle_init_message(buffer)
         } else {
             // HOT PATH
